@@ -184,28 +184,35 @@ impl PacketSpace {
             .binary_search_by(|p| p.packet_number.cmp(&ack_frame.largest()))
             .unwrap_or_else(|i| i.saturating_sub(1));
 
-        for range in ack_frame.iter() {
-            for pn in range.rev() {
-                while index > 0 && self.sent_packets[index].packet_number > pn {
-                    index = index.saturating_sub(1);
-                }
-                if self.sent_packets[index].packet_number == pn
-                    && self.sent_packets[index].state != State::Acked
-                {
-                    algorithm.on_packet_acked(&self.sent_packets[index]);
-                    self.sent_packets[index].state = State::Acked;
-                    include_ack_eliciting |= self.sent_packets[index].ack_eliciting;
-                    largest_acked = largest_acked
-                        .map(|(n, t)| {
-                            if n < pn {
-                                (pn, self.sent_packets[index].time_sent)
-                            } else {
-                                (n, t)
-                            }
-                        })
-                        .or(Some((pn, self.sent_packets[index].time_sent)));
-                }
+        // Walk the sent packets downwards next to the (descending) ranges instead of visiting
+        // every acknowledged packet number: a single well-formed range may span up to 2^62
+        // numbers, whatever has actually been sent.  At most one step per sent packet and range.
+        let mut ranges = ack_frame.iter();
+        let mut current = ranges.next();
+        while let Some(range) = &current {
+            let pn = self.sent_packets[index].packet_number;
+            if pn < *range.start() {
+                current = ranges.next();
+                continue;
             }
+            if pn <= *range.end() && self.sent_packets[index].state != State::Acked {
+                algorithm.on_packet_acked(&self.sent_packets[index]);
+                self.sent_packets[index].state = State::Acked;
+                include_ack_eliciting |= self.sent_packets[index].ack_eliciting;
+                largest_acked = largest_acked
+                    .map(|(n, t)| {
+                        if n < pn {
+                            (pn, self.sent_packets[index].time_sent)
+                        } else {
+                            (n, t)
+                        }
+                    })
+                    .or(Some((pn, self.sent_packets[index].time_sent)));
+            }
+            if index == 0 {
+                break;
+            }
+            index -= 1;
         }
 
         while self
